@@ -121,6 +121,21 @@ Theorem C03_requests_sound :
 Proof. exact get_many_sound. Qed.
 Print Assumptions C03_requests_sound.
 
+(* Chunks are VALUES in the model: [data_of] takes no world, so what a returned chunk yields
+   cannot change when the store is used again.  That is the contract every backend has to
+   provide in the code -- a returned *Chunk must not alias memory that a later call into the
+   store writes (a connection buffer, a pooled slice) -- and it is checked on the implementation
+   by the held-chunks predicate of the harness, not provable here.  Under it: the chunks of
+   earlier requests are still verified answers after all later requests. *)
+Theorem C03_held_chunks_sound :
+  forall (H : bytes -> id) (zcomp : bytes -> bytes) (zdecomp : bytes -> option bytes)
+         (s : stack) (ids later : list id) (w : world) (rs : list (res chunk)) (w' : world),
+  verifying s = true -> get_many H zcomp zdecomp s (ids ++ later) w = (rs, w') ->
+  Forall2 (fun i r => forall c, r = Ok c -> exists b, data_of zdecomp c = Some b /\ H b = i)
+          ids (firstn (length ids) rs).
+Proof. exact held_chunks_sound. Qed.
+Print Assumptions C03_held_chunks_sound.
+
 (* What a request does to the world when verification is enabled everywhere in the stack:
    the history grows by some operations; every object it asks a backend to store is stored
    under the requested id and is the storage form of bytes hashing to that id; no other
